@@ -161,6 +161,16 @@ pub fn install_panic_hook() {
     }));
 }
 
+#[cfg(feature = "engine")]
+fn sem_request(req: &serde_json::Value) -> serde_json::Value {
+    let req2 = req.clone();
+    std::panic::catch_unwind(move || crate::sem::handle_sem(&req2)).unwrap_or_else(|_| serde_json::json!({"panic": take_panic().unwrap_or_default()}))
+}
+#[cfg(not(feature = "engine"))]
+fn sem_request(_req: &serde_json::Value) -> serde_json::Value {
+    serde_json::json!({"fatal": "harness built without the engine hooks"})
+}
+
 pub fn take_panic() -> Option<String> {
     LAST_PANIC.with(|p| p.borrow_mut().take())
 }
@@ -276,7 +286,7 @@ pub fn worker_main() {
         if req.get("sem").is_some() {
             let req2 = req.clone();
             let h = std::thread::Builder::new().stack_size(16 * 1024 * 1024).spawn(move || {
-                std::panic::catch_unwind(|| crate::sem::handle_sem(&req2)).unwrap_or_else(|_| serde_json::json!({"panic": take_panic().unwrap_or_default()}))
+                sem_request(&req2)
             });
             let ans = match h {
                 Ok(h) => h.join().unwrap_or_else(|_| serde_json::json!({"panic": "thread"})),
